@@ -32,12 +32,15 @@ type Config struct {
 	Verbose    bool
 	Only       string // substring filter on harness names
 	Deadline   time.Time
+	HBudget    time.Duration // per harness: time since its first path started (0 = none)
 }
 
 type Harness struct {
 	Name string
 	Prop string
 	Fn   *ssa.Function
+	Deep bool     // thorough tier, second pass: the harness's larger bounds (under the per-harness time budget)
+	Base *Harness // for a Deep harness: its first pass (quick bounds, exhaustive)
 	St   *HarnessStats
 }
 
@@ -65,6 +68,9 @@ type HarnessStats struct {
 	SampleSMT   string
 	SamplePaths []string
 	Capped      bool
+	first       time.Time
+	HasDeeper   bool // the harness asked for a bound (or a thorough-only variant) that is larger in the thorough tier
+	NoDeeper    bool // Deep pass skipped: nothing deeper to explore
 	Pending     int
 	Wall        time.Duration
 	start       time.Time
@@ -78,6 +84,7 @@ type workItem struct {
 }
 
 type Shared struct {
+	nextH   int
 	cfg     Config
 	prog    *ssa.Program
 	hpkg    *ssa.Package
@@ -124,12 +131,12 @@ func newStats() *HarnessStats {
 func (sh *Shared) explore() {
 	sh.cond = sync.NewCond(&sh.mu)
 	sh.rngs = map[*Exec]*rand.Rand{}
+	// harnesses are explored one after the other (all workers on one harness), so that a harness's time budget is
+	// its own and a large harness cannot starve the others
 	for _, h := range sh.hs {
 		h.St = newStats()
-		h.St.start = time.Now()
-		sh.work = append(sh.work, workItem{h: h})
-		h.St.Pending = 1
 	}
+	sh.nextH = 0
 	var wg sync.WaitGroup
 	n := sh.cfg.Workers
 	for i := 0; i < n; i++ {
@@ -179,6 +186,19 @@ func (sh *Shared) worker(ex *Exec) {
 		for len(sh.work) == 0 && sh.active > 0 {
 			sh.cond.Wait()
 		}
+		for len(sh.work) == 0 && sh.nextH < len(sh.hs) && sh.hs[sh.nextH].Deep && !sh.hs[sh.nextH].Base.St.HasDeeper {
+			// the harness has no larger bound: the first pass was already everything
+			sh.hs[sh.nextH].St.NoDeeper = true
+			sh.nextH++
+		}
+		if len(sh.work) == 0 && sh.nextH < len(sh.hs) {
+			h := sh.hs[sh.nextH]
+			sh.nextH++
+			h.St.start = time.Now()
+			h.St.Pending = 1
+			sh.work = append(sh.work, workItem{h: h})
+			sh.cond.Broadcast()
+		}
 		if len(sh.work) == 0 {
 			sh.mu.Unlock()
 			sh.cond.Broadcast()
@@ -188,7 +208,11 @@ func (sh *Shared) worker(ex *Exec) {
 		sh.work = sh.work[:len(sh.work)-1]
 		st := it.h.St
 		st.Pending--
-		over := st.Paths >= sh.cfg.MaxPaths || (!sh.cfg.Deadline.IsZero() && time.Now().After(sh.cfg.Deadline))
+		if st.first.IsZero() {
+			st.first = time.Now()
+		}
+		over := st.Paths >= sh.cfg.MaxPaths || (!sh.cfg.Deadline.IsZero() && time.Now().After(sh.cfg.Deadline)) ||
+			(sh.cfg.HBudget > 0 && it.h.Deep && time.Since(st.first) > sh.cfg.HBudget)
 		if over {
 			st.Capped = true
 			sh.mu.Unlock()
@@ -223,6 +247,9 @@ func (sh *Shared) worker(ex *Exec) {
 
 func (sh *Shared) merge(st *HarnessStats, ex *Exec, reason string, prefixLen int) {
 	r := &ex.res
+	if r.hasDeeper {
+		st.HasDeeper = true
+	}
 	if reason == "" {
 		st.Completed++
 		if ex.pathSym {
